@@ -178,6 +178,17 @@ pub fn prefill(quick: bool) -> Vec<Scenario> {
         Scenario::new("prefill-launchfail", vec![w(1)], vec![vec![sub(arr(&[0, 1, 2], 1))]])
             .prefill(1, 1)
             .launch_fail(1, 1, 1),
+        // one RetractTasks naming two pre-sent tasks of two jobs; the older job is canceled while the
+        // response is in flight
+        Scenario::new(
+            "prefill2-hiprio-cancel",
+            vec![w(1)],
+            vec![
+                vec![sub(arr(&[0, 1], 1)), sub(arr(&[0], 1)), sub(arr(&[0], 1).prio(5))],
+                vec![Req::Cancel(1)],
+            ],
+        )
+        .prefill(0, 2),
         // worker loss / join while a prefill is being disposed (bounded prefix of the thorough scenario)
         Scenario::new(
             "prefill-hiprio-kill-q",
@@ -381,6 +392,13 @@ pub fn maxfails(quick: bool) -> Vec<Scenario> {
             .budgets(0, 2, 0, 2),
         Scenario::new("maxfails-0-launchfail", vec![w(2)], vec![vec![sub(arr(&[0, 1, 2], 1).max_fails(0))]])
             .launch_fail(1, 1, 1),
+        // two tasks running on the worker that is lost; the first failure trips max-fails
+        Scenario::new(
+            "maxfails-0-crashlimit-same-worker",
+            vec![w(2)],
+            vec![vec![sub(arr(&[0, 1], 1).max_fails(0).crash_limit("1"))]],
+        )
+        .budgets(1, 0, 0, 1),
         Scenario::new(
             "maxfails-0-crashlimit",
             vec![w(1), w(1)],
